@@ -155,6 +155,7 @@ pub fn cfg_to_json(c: &Cfg) -> Value {
         "max_records": c.max_records, "max_size": c.max_size,
         "cache_items": c.cache_items, "cache_cap": c.cache_cap,
         "read_buf": c.read_buf, "truncate_incomplete": c.truncate_incomplete,
+        "start_offset": c.start_offset,
     })
 }
 
@@ -167,6 +168,7 @@ pub fn cfg_from_json(v: &Value) -> Cfg {
         cache_cap: u(&v["cache_cap"]),
         read_buf: u(&v["read_buf"]),
         truncate_incomplete: v["truncate_incomplete"].as_bool(),
+        start_offset: v["start_offset"].as_u64(),
     }
 }
 
@@ -272,7 +274,7 @@ pub fn run(spec: &SeqSpec, hist: &[Op], cfg: &Cfg, stats: &SeqStats) -> Result<R
         vio(spec, "open-fresh", format!("opening a fresh directory failed: {}", e), hist, cfg, json!({}))
     })?;
     let mut m = RefLog::new();
-    let mut j = Journal::new(cfg.limits());
+    let mut j = Journal::new_at(cfg.limits(), cfg.start_offset.unwrap_or(0));
     let mut api = Fnv::new();
     let mut unflushed: u64 = 0;
     let mut cur_cfg = *cfg;
